@@ -114,6 +114,9 @@ MATCHERS = {
     'bound_assigned_across_other_bound': match_bound_across,
     'filepaths_in_mixed_spellings': match_mixed_spelling,
 }
+# in the continued region of D09b (the bounds crossed earlier in the history) that finding cannot excuse anything
+# further; the other open findings are what they are there too
+WEAK_MATCHERS = {k: v for k, v in MATCHERS.items() if k != 'bound_assigned_across_other_bound'}
 
 # ---------------------------------------------------------------------------------------------
 # generators
@@ -990,7 +993,7 @@ def _evaluate(ctx, drv, cases):
                 fid = ctx.violation('after operation %d (%s) the torrent violates C09: %s'
                                     % (k, op['k'], ', '.join(dev)),
                                     case, {'no deviation; model state': ms['state'], 'model res': ms['res']},
-                                    observed, finding_matchers={} if weak else MATCHERS)
+                                    observed, finding_matchers=WEAK_MATCHERS if weak else MATCHERS)
                 reproduced = reproduced or (fid is not None and fid == c.get('witness'))
                 # D09b narrowed (C09_inv_corrected_step): if the deviation is the known finding and
                 # the next operation re-assigns the same bound correctively (the driver's hypC holds
